@@ -5,7 +5,7 @@ CONSTANTS
   MaxVnodes = 2
   NDcs = 2
   NRacks = 2
-  KsIdx = {2, 3, 4, 5, 9, 10}
+  KsIdx = {2, 3, 4, 5, 10}
   TailLen = 2
   Variants = TRUE
 INVARIANTS CheckAndEmit
